@@ -19,7 +19,7 @@ Raw == AllRaw[kid]
 SpecMasses(raw) ==
   LET K0 == CfgOf(raw, [i \in DOMAIN raw.frags |-> 0], 0) IN
   [i \in DOMAIN raw.frags |-> IF raw.coarse THEN raw.masses[i] ELSE MassOf(K0, i)]
-K == CfgOf(Raw, SpecMasses(Raw), Raw.targets[TargetIdx])
+K == CfgOf(Raw, SpecMasses(Raw), Raw.targets[IF TargetIdx <= Len(Raw.targets) THEN TargetIdx ELSE Len(Raw.targets)])
 
 Init == kid \in CfgIds /\ S = InitS
 StartAct == /\ S.copies = <<>>
